@@ -907,4 +907,297 @@ theorem costMList_le_len (es : List PExpr) : costMList es ≤ 32 * (bodyList D e
       omega
 end
 
+
+/-! ## the lexer reads rendered tokens back -/
+
+/-- what may follow the text of a token: the end of the input or a blank -/
+def endOrBlank : List Nat → Bool
+  | [] => true
+  | 32 :: _ => true
+  | _ => false
+
+theorem takeWhileN_append (p : Nat → Bool) (a rest : List Nat) (ha : ∀ c ∈ a, p c = true)
+    (hr : ∀ c r, rest = c :: r → p c = false) : takeWhileN p (a ++ rest) = (a, rest) := by
+  induction a with
+  | nil =>
+    cases rest with
+    | nil => rfl
+    | cons c r => simp [takeWhileN, hr c r rfl]
+  | cons x xs ih =>
+    have hx := ha x (by simp)
+    simp only [List.cons_append, takeWhileN, hx, if_true]
+    rw [ih (fun c hc => ha c (by simp [hc]))]
+
+theorem endOrBlank_head (p : Nat → Bool) (h32 : p 32 = false) (rest : List Nat) (h : endOrBlank rest = true) :
+    ∀ c r, rest = c :: r → p c = false := by
+  intro c r hc
+  subst hc
+  cases c with
+  | zero => simp [endOrBlank] at h
+  | succ n =>
+    by_cases h32' : n + 1 = 32
+    · rw [h32']; exact h32
+    · exfalso
+      simp only [endOrBlank] at h
+      split at h <;> simp_all
+
+/-! ### numbers -/
+
+theorem natDigits_all (n : Nat) : ∀ c ∈ natDigits n, isDigit c = true := by
+  fun_induction natDigits n with
+  | case1 n h => intro c hc; simp at hc; subst hc; simp [isDigit]; omega
+  | case2 n h ih =>
+    intro c hc
+    rcases List.mem_append.mp hc with h1 | h1
+    · exact ih c h1
+    · simp at h1; subst h1; simp [isDigit]; omega
+
+theorem natDigits_ne_nil (n : Nat) : natDigits n ≠ [] := by
+  fun_induction natDigits n <;> simp
+
+theorem digitsVal_append (ds : List Nat) (d : Nat) : digitsVal (ds ++ [d]) = digitsVal ds * 10 + (d - 48) := by
+  simp [digitsVal, List.foldl_append]
+
+theorem digitsVal_natDigits (n : Nat) : digitsVal (natDigits n) = n := by
+  fun_induction natDigits n with
+  | case1 n h => simp [digitsVal]
+  | case2 n h ih => rw [digitsVal_append, ih]; omega
+
+
+/-! ### strings -/
+
+theorem lexString_escape (s rest : List Nat) (hr : endOrBlank rest = true) :
+    lexString (escapeQuotes s ++ 39 :: rest) = (s, rest) := by
+  induction s with
+  | nil =>
+    simp only [escapeQuotes, List.nil_append]
+    cases rest with
+    | nil => simp [lexString]
+    | cons c r =>
+      have : c = 32 := by
+        simp only [endOrBlank] at hr
+        split at hr <;> simp_all
+      subst this
+      simp [lexString]
+  | cons c cs ih =>
+    simp only [escapeQuotes]
+    by_cases hc : c = 39
+    · subst hc
+      simp only [if_true, List.cons_append, lexString, ih]
+    · simp only [hc, if_false, List.cons_append]
+      rw [lexString]
+      · simp [ih]
+      all_goals (intros; simp_all)
+
+/-! ### character classes -/
+
+theorem alpha_not_space_digit (c : Nat) (h : (isAlpha c || c == 95) = true) :
+    isSpace c = false ∧ isDigit c = false := by
+  simp only [isAlpha, isSpace, isDigit, Bool.or_eq_true, Bool.and_eq_true, decide_eq_true_eq, beq_iff_eq] at h ⊢
+  constructor
+  · simp only [Bool.or_eq_false_iff, beq_eq_false_iff_ne]; omega
+  · simp only [Bool.and_eq_false_iff, decide_eq_false_iff_not]; omega
+
+theorem digit_not_space (c : Nat) (h : isDigit c = true) : isSpace c = false := by
+  simp only [isSpace, isDigit, Bool.and_eq_true, decide_eq_true_eq] at h ⊢
+  simp only [Bool.or_eq_false_iff, beq_eq_false_iff_ne]; omega
+
+
+theorem endOrBlank_cases (rest : List Nat) (h : endOrBlank rest = true) : rest = [] ∨ ∃ r, rest = 32 :: r := by
+  cases rest with
+  | nil => exact Or.inl rfl
+  | cons c r =>
+    right
+    simp only [endOrBlank] at h
+    split at h <;> simp_all
+
+/-- one token: its text, followed by the end of the input or a blank, is read back as that token -/
+theorem lex_tok (t : Tok) (ht : PrintableTok t = true) (rest : List Nat) (hr : endOrBlank rest = true) (f : Nat) :
+    lex (f + 1) (tokText t ++ rest) = (lex f rest).map (t :: ·) := by
+  cases t with
+  | num n =>
+    have hne := natDigits_ne_nil n
+    have hall := natDigits_all n
+    simp only [tokText]
+    cases hd : natDigits n with
+    | nil => exact absurd hd hne
+    | cons d ds =>
+      have hdig : isDigit d = true := hall d (by rw [hd]; simp)
+      have hsp := digit_not_space d hdig
+      have htw : takeWhileN isDigit (d :: (ds ++ rest)) = (natDigits n, rest) := by
+        have := takeWhileN_append isDigit (natDigits n) rest hall
+          (endOrBlank_head isDigit (by decide) rest hr)
+        rw [hd] at this ⊢
+        exact this
+      simp only [List.cons_append, lex, hsp, hdig, Bool.false_eq_true, if_false, if_true, htw]
+      rcases endOrBlank_cases rest hr with rfl | ⟨r, rfl⟩
+      · simp [digitsVal_natDigits]
+      · simp [digitsVal_natDigits]
+  | str s =>
+    simp only [tokText, List.cons_append, List.append_assoc, List.singleton_append]
+    have := lexString_escape s rest hr
+    simp [lex, isSpace, isDigit, isAlpha, this]
+  | ident s =>
+    simp only [PrintableTok] at ht
+    cases s with
+    | nil => simp at ht
+    | cons c cs =>
+      simp only [Bool.and_eq_true, beq_iff_eq] at ht
+      obtain ⟨⟨hc, hall⟩, hkw⟩ := ht
+      have hns := alpha_not_space_digit c hc
+      have htw : takeWhileN isIdentChar (c :: (cs ++ rest)) = (c :: cs, rest) := by
+        have := takeWhileN_append isIdentChar (c :: cs) rest (by simpa using hall)
+          (endOrBlank_head isIdentChar (by decide) rest hr)
+        simpa using this
+      simp only [tokText, List.cons_append, lex, hns.1, hns.2, hc, Bool.false_eq_true, if_false, if_true, htw, hkw]
+  | other s => simp [PrintableTok] at ht
+  | kTrue | kFalse | kNull | kAnd | kOr | kNot | kLike | kIn | kBetween | kIs =>
+    rcases endOrBlank_cases rest hr with rfl | ⟨r, rfl⟩ <;>
+      simp [tokText, lex, isSpace, isDigit, isAlpha, isIdentChar, takeWhileN, keyword, lower]
+  | lparen | rparen | comma | dot | eq | neq | lt | gt | le | ge | plus | minus | star | slash | percent | concat =>
+    rcases endOrBlank_cases rest hr with rfl | ⟨r, rfl⟩ <;>
+      simp [tokText, lex, isSpace, isDigit, isAlpha]
+
+
+theorem tokText_length_pos (t : Tok) (ht : PrintableTok t = true) : 1 ≤ (tokText t).length := by
+  cases t with
+  | num n =>
+    have := natDigits_ne_nil n
+    simp only [tokText]
+    cases h : natDigits n with
+    | nil => exact absurd h this
+    | cons d ds => simp
+  | ident s => cases s <;> simp [PrintableTok] at ht <;> simp [tokText]
+  | other s => simp [PrintableTok] at ht
+  | str s => simp [tokText]
+  | kTrue | kFalse | kNull | kAnd | kOr | kNot | kLike | kIn | kBetween | kIs
+  | lparen | rparen | comma | dot | eq | neq | lt | gt | le | ge | plus | minus | star | slash | percent | concat =>
+    simp [tokText]
+
+theorem lex_nil (f : Nat) : lex (f + 1) [] = some [] := by simp [lex]
+
+theorem lex_blank (f : Nat) (cs : List Nat) : lex (f + 1) (32 :: cs) = lex f cs := by
+  simp [lex, isSpace]
+
+theorem render_cons2 (t t2 : Tok) (ts : List Tok) : render (t :: t2 :: ts) = tokText t ++ 32 :: render (t2 :: ts) := by
+  rw [render]
+  intro h; cases h
+
+theorem lex_render_fuel (ts : List Tok) (h : ∀ t ∈ ts, PrintableTok t = true) :
+    ∀ f, (render ts).length < f → lex f (render ts) = some ts := by
+  induction ts with
+  | nil =>
+    intro f hf
+    obtain ⟨f', rfl⟩ : ∃ f', f = f' + 1 := ⟨f - 1, by omega⟩
+    exact lex_nil f'
+  | cons t ts ih =>
+    intro f hf
+    have ht := h t (by simp)
+    have hpos := tokText_length_pos t ht
+    cases ts with
+    | nil =>
+      simp only [render] at hf ⊢
+      obtain ⟨f', rfl⟩ : ∃ f', f = f' + 2 := ⟨f - 2, by omega⟩
+      have := lex_tok t ht [] rfl (f' + 1)
+      simp only [List.append_nil] at this
+      rw [this, lex_nil]
+      rfl
+    | cons t2 ts' =>
+      rw [render_cons2] at hf ⊢
+      simp only [List.length_append, List.length_cons] at hf
+      obtain ⟨f', rfl⟩ : ∃ f', f = f' + 2 := ⟨f - 2, by omega⟩
+      rw [lex_tok t ht _ rfl (f' + 1), lex_blank, ih (fun x hx => h x (by simp [hx])) f' (by omega)]
+      rfl
+
+/-- **The lexer reads the text of printable tokens back**: token texts separated by single blanks -/
+theorem lex_render (ts : List Tok) (h : ∀ t ∈ ts, PrintableTok t = true) : lexAll (render ts) = some ts :=
+  lex_render_fuel ts h _ (Nat.lt_succ_self _)
+
+
+/-! ### the tokens of a rendering are printable -/
+
+theorem wrapIf_printable (c : Bool) (ts : List Tok) (h : ∀ t ∈ ts, PrintableTok t = true) :
+    ∀ t ∈ wrapIf c ts, PrintableTok t = true := by
+  intro t ht
+  cases c
+  · exact h t (by simpa [wrapIf] using ht)
+  · simp only [wrapIf, if_true, List.mem_cons, List.mem_append, List.mem_singleton, List.not_mem_nil, or_false] at ht
+    rcases ht with (rfl | ht) | rfl
+    · rfl
+    · exact h t ht
+    · rfl
+
+theorem binTok_printable (op : BinOp) : ∀ t ∈ binTok op, PrintableTok t = true := by
+  cases op <;> simp [binTok, PrintableTok]
+
+mutual
+theorem body_printable (e : PExpr) (h : IdentsOk e = true) : ∀ t ∈ body D e, PrintableTok t = true := by
+  cases e with
+  | num i => intro t ht; simp only [body] at ht; split at ht <;> simp at ht <;> rcases ht with rfl | rfl <;> rfl
+  | str s => intro t ht; simp [body] at ht; subst ht; rfl
+  | bool b => intro t ht; cases b <;> simp [body] at ht <;> subst ht <;> rfl
+  | null => intro t ht; simp [body] at ht; subst ht; rfl
+  | ident s => intro t ht; simp [body] at ht; subst ht; simpa [IdentsOk] using h
+  | qident a b =>
+    simp only [IdentsOk, Bool.and_eq_true] at h
+    intro t ht; simp [body] at ht
+    rcases ht with rfl | rfl | rfl
+    · exact h.1
+    · rfl
+    · exact h.2
+  | un op s =>
+    simp only [IdentsOk] at h
+    intro t ht
+    simp only [body, List.mem_cons] at ht
+    rcases ht with rfl | ht
+    · cases op <;> rfl
+    · exact wrapIf_printable _ _ (body_printable s h) t ht
+  | bin op l r =>
+    simp only [IdentsOk, Bool.and_eq_true] at h
+    intro t ht
+    simp only [body, List.mem_append] at ht
+    rcases ht with (ht | ht) | ht
+    · exact wrapIf_printable _ _ (body_printable l h.1) t ht
+    · exact binTok_printable op t ht
+    · exact wrapIf_printable _ _ (body_printable r h.2) t ht
+  | between neg e lo hi =>
+    simp only [IdentsOk, Bool.and_eq_true] at h
+    intro t ht
+    simp only [body, List.mem_append, List.mem_singleton] at ht
+    rcases ht with (((ht | ht) | ht) | ht) | ht
+    · exact wrapIf_printable _ _ (body_printable e h.1.1) t ht
+    · cases neg <;> simp at ht <;> rcases ht with rfl | rfl <;> rfl
+    · exact wrapIf_printable _ _ (body_printable lo h.1.2) t ht
+    · subst ht; rfl
+    · exact wrapIf_printable _ _ (body_printable hi h.2) t ht
+  | inList neg e items =>
+    simp only [IdentsOk, Bool.and_eq_true] at h
+    intro t ht
+    simp only [body, List.mem_append, List.mem_singleton] at ht
+    rcases ht with ((ht | ht) | ht) | ht
+    · exact wrapIf_printable _ _ (body_printable e h.1) t ht
+    · cases neg <;> simp at ht <;> rcases ht with rfl | rfl | rfl <;> rfl
+    · exact bodyList_printable items h.2 t ht
+    · subst ht; rfl
+
+theorem bodyList_printable (es : List PExpr) (h : IdentsOkList es = true) :
+    ∀ t ∈ bodyList D es, PrintableTok t = true := by
+  cases es with
+  | nil => intro t ht; simp [bodyList] at ht
+  | cons e rest =>
+    simp only [IdentsOkList, Bool.and_eq_true] at h
+    intro t ht
+    cases rest with
+    | nil =>
+      rw [bodyList_single] at ht
+      exact body_printable e h.1 t ht
+    | cons e2 r2 =>
+      rw [bodyList_cons2] at ht
+      simp only [List.mem_append, List.mem_cons] at ht
+      rcases ht with ht | rfl | ht
+      · exact body_printable e h.1 t ht
+      · rfl
+      · exact bodyList_printable (e2 :: r2) h.2 t ht
+end
+
 end AxVerif.Parser
